@@ -10,3 +10,5 @@ func verifYield(bf *buffer, site string) {}
 func verifSvcYield(svc *service, site string) {}
 
 func verifEvent(ev string, svc *service, a, b, c int64, s string) {}
+
+func verifLife(ev string, svc *service) {}
